@@ -4,6 +4,8 @@
 // float and mixed integer widths, nested tuple<pair<int,string>, variant<int,string>>, unique_ptr / shared_ptr.
 // Also every two-step history (hash, change members in place, hash again): the hash must follow the members.
 #include "../engine/json.hpp"
+#include <cstdint>
+#include <limits>
 #include "../engine/mc.hpp"
 
 #include <nitro/lang/hash.hpp>
@@ -479,6 +481,49 @@ static void check_nested_positions(std::vector<Fail>& f, mc::Report& rep)
                 for (auto& z : c)
                     g.emplace_back(x, y, z);
         check_positions("tuple<u16string,u32string,wstring>", g, 3, [](const T& x, const T& y) { return diff3(get<0>(x), get<0>(y), get<1>(x), get<1>(y), get<2>(x), get<2>(y)); }, f, rep);
+        // narrow strings at sizes around the short-string and block thresholds, differing in the first / a middle / the last byte
+        {
+            std::vector<std::string> g = { "" };
+            for (size_t n : { 1u, 7u, 8u, 9u, 15u, 16u, 17u, 31u, 32u, 33u, 255u, 256u, 1000u })
+            {
+                std::string base(n, 's');
+                g.push_back(base);
+                auto x = base;
+                x[n - 1] = 't';
+                g.push_back(x);
+                x = base;
+                x[0] = 't';
+                g.push_back(x);
+                x = base;
+                x[n / 2] = '\0';
+                g.push_back(x);
+            }
+            std::vector<std::string> distinct;
+            for (auto& x : g)
+                if (std::find(distinct.begin(), distinct.end(), x) == distinct.end())
+                    distinct.push_back(x);
+            check_positions("string(sizes)", distinct, 1, [](const std::string&, const std::string&) { return 0; }, f, rep);
+            using T = std::tuple<std::string, std::string>;
+            std::vector<T> tg;
+            for (size_t i = 0; i < distinct.size(); i += 3)
+                for (size_t j = 1; j < distinct.size(); j += 5)
+                    tg.emplace_back(distinct[i], distinct[j]);
+            check_positions("tuple<string,string>(sizes)", tg, 2, [](const T& x, const T& y) { return diff2(get<0>(x), get<0>(y), get<1>(x), get<1>(y)); }, f, rep);
+        }
+        // integers of several widths at their extremes
+        {
+            using T = std::tuple<std::int64_t, std::uint64_t, std::int8_t, std::uint16_t>;
+            std::vector<T> g;
+            for (std::int64_t a : { std::numeric_limits<std::int64_t>::min(), std::int64_t(-1), std::int64_t(0), std::int64_t(1) << 32, std::numeric_limits<std::int64_t>::max() })
+                for (std::uint64_t b : { std::uint64_t(0), std::uint64_t(1) << 63, std::numeric_limits<std::uint64_t>::max() })
+                    for (std::int8_t c : { std::int8_t(-128), std::int8_t(0), std::int8_t(127) })
+                        for (std::uint16_t d : { std::uint16_t(0), std::uint16_t(255), std::uint16_t(256), std::uint16_t(65535) })
+                            g.emplace_back(a, b, c, d);
+            check_positions("tuple<int64,uint64,int8,uint16>(extremes)", g, 4, [](const T& x, const T& y) {
+                int d = (get<0>(x) != get<0>(y)) + (get<1>(x) != get<1>(y)) + (get<2>(x) != get<2>(y)) + (get<3>(x) != get<3>(y));
+                return d != 1 ? -1 : get<0>(x) != get<0>(y) ? 0 : get<1>(x) != get<1>(y) ? 1 : get<2>(x) != get<2>(y) ? 2 : 3;
+            }, f, rep);
+        }
         std::vector<std::u32string> single = { U"", U"a", U"ab", U"abc", U"abd", U"abcd", U"abce", U"abcdefgh", U"abcdefgx" };
         check_positions("u32string", single, 1, [](const std::u32string&, const std::u32string&) { return 0; }, f, rep);
         std::vector<std::u16string> single16 = { u"", u"a", u"ab", u"ac", u"abcd", u"abce", u"abcdefgh", u"abcdefgx" };
